@@ -121,6 +121,11 @@ def config_battery(seed, n=40, goarch=""):
     import random
     rng = random.Random(seed)
     pool = ref.limb_candidates(rng, n)
+    # limbs whose low / high 32-bit halves are all ones or zero (word-split multiplications on 32-bit targets)
+    for hi in (0, 0x7ffff, 0x3ffff, rng.randrange(1 << 19)):
+        for lo in (0xffffffff, 0xfffffffe, 0x80000000, 0):
+            pool.append([(hi << 32) | lo] * 5)
+            pool.append([(hi << 32) | lo, rng.randrange(1 << 51), (hi << 32) | lo, rng.randrange(1 << 51), (hi << 32) | lo])
     ops, meta = [], []
 
     def add(op, args, init, want=None):
@@ -140,6 +145,8 @@ def config_battery(seed, n=40, goarch=""):
         for fn in ("Square", "feSquare", "feSquareGeneric"):
             add(fn, ["v", "a"], {"v": J, "a": A}, va * va)
             add(fn, ["a", "a"], {"a": A}, va * va)
+        for y32 in (0xffffffff, 0x80000000, 121666, 0xfffffffe, rng.randrange(2**32)):
+            add("Mult32", ["v", "a", str(y32)], {"v": J, "a": A}, va * y32)
         if i < 12:
             add("Invert", ["v", "a"], {"v": J, "a": A}, pow(va, ref.P - 2, ref.P))
             add("Invert", ["a", "a"], {"a": A}, pow(va, ref.P - 2, ref.P))
